@@ -180,6 +180,15 @@ func (mr *MigrationRunner) runMigration(ctx context.Context, migrationIndex uint
 		return ctx.Err()
 	}
 
+	if err != nil {
+		// Cancelled with nothing to resume from: the migration did not complete, so it must
+		// not be recorded as applied. Any existing state is cleared, as documented above.
+		if delErr := DeleteIntermediateState(mr.database, migrationIndex); delErr != nil {
+			return fmt.Errorf("deleting intermediate state: %w", delErr)
+		}
+		return err
+	}
+
 	mr.metadata.CurrentVersion.Set(migrationIndex)
 	txn := mr.database.NewBatch()
 	if err := WriteSchemaMetadata(txn, mr.metadata); err != nil {
